@@ -96,6 +96,18 @@ def c19Verdict (steps goAll : String) : String := Id.run do
     | _ => return "skip:shape"
   return "ok"
 
+/-- C01 on gem.String histories: the boundaries the library reports (Len, GraphemeIndexes, CharAt) or
+stores for a DERIVED value (result of Add/Sub/SetCharAt/Repeat) are the UAX #29 boundaries of that value's
+code points.  Only the boundary clauses of the C19 oracle count here; the others belong to C19 alone. -/
+def c01HistVerdict (steps goAll : String) : String :=
+  let v := c19Verdict steps goAll
+  let boundary := ["fail:C19 cached boundaries are stale", "fail:C19 Len differs", "fail:C19 GraphemeIndexes differ",
+    "fail:C19 CharAt differs", "fail:C19 boundaries do not partition"]
+  if boundary.any (fun p => v.startsWith p) then
+    "fail:C01 the boundaries of a derived grapheme string are not the UAX #29 boundaries of its code points: " ++ (v.drop 9).toString
+  else if v.startsWith "fail" then "skip:not-a-boundary-clause"
+  else v
+
 /-- C20 monitor: the package-level cell of gem.Zero is never written -/
 def c20HistVerdict (goAll : String) : String :=
   let init := if Gen.zeroCachePrefilled then "1" else "0"
